@@ -447,6 +447,15 @@ fn regress_inputs() -> Vec<(&'static str, Vec<u8>, Vec<&'static str>)> {
         tdt(0, 0, true, false, false),
     ];
     v.push(("IB fatal lane >= 9", mk(fee_id(0, 0, 1), 0, 0, f1, 2), vec!["check", "all", "its-stave"]));
+    // first packet read is ITS, the filter selects packets of another known system that carry a frame error
+    {
+        let mut a = mk(fee_id(0, 0, 1), 0, 0, vec![], 2);
+        let mut p = Packet::new(Rdh { fee_id: fee_id(1, 0, 3), link_id: 1, system_id: 3, ..Rdh::default() });
+        p.words = vec![ihw(7), tdh(&t2), tdt(0, 0, true, false, false)];
+        p.fix_sizes();
+        a.extend(p.encode());
+        v.push(("stats thread: FEE ID of unrecorded stave", a, vec!["check", "all", "its-stave", "-f", "1"]));
+    }
     v
 }
 
@@ -482,7 +491,7 @@ pub fn build() -> Property {
         phases: vec![
             Phase {
                 name: "regress_fixed_crashes",
-                kind: PhaseKind::Enum { n: (14, 14), exhaustive: (false, false), f: Box::new(regress_case) },
+                kind: PhaseKind::Enum { n: (16, 16), exhaustive: (false, false), f: Box::new(regress_case) },
                 threads: 4,
             },
             Phase {
